@@ -59,6 +59,12 @@ def harvest_internal_names():
             if n.endswith("_"):
                 n = n + "0"
             names.add(n)
+        if fn in ("pandas_base.py", "polars_model.py"):
+            # any identifier-like literal assigned as / used as a column inside the executors (catches scratch
+            # names that do not follow the usual prefixes): res["name"] = ..., .alias("name"), "name" in by=[...]
+            for m in re.finditer(r"""(?:\[\s*|alias\(\s*|_name\s*=\s*|_col\s*=\s*)f?["']([A-Za-z_][A-Za-z0-9_]{4,})["']""", txt):
+                if "_" in m.group(1):
+                    names.add(m.group(1))
     names |= {"_data_table_temp_col", "data_algebra_extend_temp_col_0", "data_algebra_project_temp_col_0", "_data_algebra_orig_index", "_data_algebra_temp_g", "data_algebra_temp_merge_col"}
     for p in VIEW_PREFIXES:
         for i in (0, 1, 2):
